@@ -12,7 +12,45 @@ ASSUMPTIONS = [
 ]
 
 
+def oracle_decimal(case, obs):
+    """Decimal coordinates: the same clauses within 1e-9 of the layout size (binary64 rounding)."""
+    if obs["init"] is None:
+        return None
+    size = max(max(abs(core.frac(c["rect"]["cx"])) + core.frac(c["rect"]["w"]),
+                   abs(core.frac(c["rect"]["cy"])) + core.frac(c["rect"]["h"])) for c in obs["init"]["cells"])
+    tol = size * F(1, 10 ** 9)
+    for o, st in zip(case["ops"], obs["steps"]):
+        before, after = st["before"]["cells"], st["after"]
+        if after is None:
+            return f"{o[0]} failed ({st.get('err')}) on a valid allocation with decimal coordinates"
+        after = after["cells"]
+        for p in before:
+            pb = ac.cbox(p)
+            kids = [c for c in after if ac.ovl(pb, ac.cbox(c)) > tol * size]
+            for c in kids:
+                b = ac.cbox(c)
+                if not (b[0] >= pb[0] - tol and b[1] >= pb[1] - tol and b[2] <= pb[2] + tol and b[3] <= pb[3] + tol):
+                    return f"{o[0]}: a new cell is not inside the cell it was cut from (decimal)"
+                if dict(map(tuple, c["alloc"])) != dict(map(tuple, p["alloc"])):
+                    return f"{o[0]}: a new cell does not inherit the occupancy ratios of its parent (decimal)"
+            if abs(sum(ac.carea(c) for c in kids) - ac.carea(p)) > 4 * tol * size:
+                return f"{o[0]}: the new cells do not cover the cell they were cut from (decimal)"
+            if p["rect"]["fixed"] and (len(kids) != 1 or ac.cbox(kids[0]) != pb):
+                return f"{o[0]}: a cell of a fixed module was cut"
+        mods = {m for c in before for m, _ in c["alloc"]}
+        for m in mods:
+            a0, a1 = ac.mod_area(before, m), ac.mod_area(after, m)
+            if abs(a0 - a1) > 4 * tol * size:
+                return f"{o[0]}: allocated area of module {m} changed (decimal)"
+            c0, c1 = ac.mod_center(before, m), ac.mod_center(after, m)
+            if (c0 is None) != (c1 is None) or (c0 and (abs(c0[0] - c1[0]) > 1000 * tol or abs(c0[1] - c1[1]) > 1000 * tol) and a0 > F(1, 10 ** 6) * size * size):
+                return f"{o[0]}: centre of mass of module {m} changed (decimal)"
+    return None
+
+
 def oracle(case, obs):
+    if case.get("stream") == "decimal":
+        return oracle_decimal(case, obs)
     if obs["init"] is None:
         return None       # not a valid allocation: nothing is claimed
     for o, st in zip(case["ops"], obs["steps"]):
